@@ -18,7 +18,7 @@ import (
 
 // C18 — options act only on their own aspect, in any order, on every Evaluate.
 
-const c18Rule = "option lists over {WithTagName(bexpr|alt), WithHookFn(identity|unwrap|constant|unwrap+upper-casing strings|re-entrant (the hook evaluates other expressions)|nil), WithUnknownValue(v), WithMaxExpressions(0|>=N|small)} with repeats, nil options " +
+const c18Rule = "option lists over {WithTagName(bexpr|alt|names that cannot be tag keys), WithHookFn(identity|unwrap|constant|unwrap+upper-casing strings|re-entrant (the hook evaluates other expressions)|re-entrant into the same evaluator|nil), WithUnknownValue(v), WithMaxExpressions(0|>=N|small)} with repeats, nil options " +
 	"and all permutations; structs tagged under both tag names, map values wrapped in the hook's wrapper struct; several Evaluate calls per evaluator, the caller overwriting and re-using its option slice (spread into CreateEvaluator) between them, and its Option values also passed to other CreateEvaluator calls before and after overriding options; oracles: " +
 	"permutations agree, last of repeated options wins, neutral settings equal their absence, the unwrap hook makes wrapped documents behave as unwrapped ones and agrees " +
 	"with the reference interpreter applying the hook after every step, later calls equal the first; non-trivial = >= 2 distinct non-neutral options whose aspect the " +
@@ -49,6 +49,8 @@ func (s optSpec) option() bexpr.Option {
 			return bexpr.WithHookFn(shoutHook)
 		case ref.HookNested:
 			return bexpr.WithHookFn(nestedHook)
+		case ref.HookSelf:
+			return newSelfHook()
 		}
 		return bexpr.WithHookFn(nil)
 	case "unknown":
@@ -137,9 +139,11 @@ func c18Eval(t failer, c *c18Case, text string, opts []bexpr.Option, d interface
 	own := make([]bexpr.Option, len(opts), len(opts)+2)
 	copy(own, opts)
 	ev, err := bexpr.CreateEvaluator(text, own...)
+	bindSelf(ev)
 	if err != nil {
 		return c18Result{createErr: err.Error()}
 	}
+	aimSelf(ev, d)
 	var first c18Result
 	for i := 0; i < 3; i++ {
 		if i == 1 {
@@ -274,7 +278,7 @@ func c18Check(t failer, c *c18Case) (ref.Set, int) {
 		}
 		switch kind {
 		case "hook":
-			neutral = eff.Hook == int(ref.HookIdentity) || eff.Hook == 0 || eff.Hook == int(ref.HookNested)
+			neutral = eff.Hook == int(ref.HookIdentity) || eff.Hook == 0 || eff.Hook == int(ref.HookNested) || eff.Hook == int(ref.HookSelf)
 		case "tag":
 			neutral = eff.Tag == ""
 		case "max":
@@ -380,9 +384,11 @@ func TestC18_Options(t *testing.T) {
 		for i := 0; i < n; i++ {
 			switch rapid.IntRange(0, 8).Draw(t, "okind") {
 			case 0, 1:
-				specs = append(specs, optSpec{Kind: "tag", Tag: []string{uni.AltTag, "bexpr", uni.AltTag}[rapid.IntRange(0, 2).Draw(t, "tag")]})
+				specs = append(specs, optSpec{Kind: "tag", Tag: []string{uni.AltTag, "bexpr", uni.AltTag, uni.AltTag,
+					// names no struct tag can have (a config value that kept its line break, a typo): they name no tag at all - fields go by their Go names
+					"alt\n", "alt:", "a b", "ALT", "bexpr ", "\"", "json"}[rapid.IntRange(0, 10).Draw(t, "tag")]})
 			case 2, 3:
-				specs = append(specs, optSpec{Kind: "hook", Hook: []int{2, 0, 1, 2, 3, 4, 5, 5}[rapid.IntRange(0, 7).Draw(t, "hook")]})
+				specs = append(specs, optSpec{Kind: "hook", Hook: []int{2, 0, 1, 2, 3, 4, 5, 5, 6, 6}[rapid.IntRange(0, 9).Draw(t, "hook")]})
 			case 4, 5:
 				k := uni.ScalarKinds[rapid.IntRange(0, len(uni.ScalarKinds)-1).Draw(t, "uk")]
 				specs = append(specs, optSpec{Kind: "unknown", Unknown: uni.GenScalar(t, &uni.Type{K: k}, uni.Profile{})})
